@@ -6,8 +6,10 @@
                           TLC checks that the relation accepts exactly the answers that satisfy the statement.
 (B) specs/Gen_Pca.tla   : every multiset of n rows over small grids for p = 1, 2, 3 (offset / badly scaled variants,
                           exact conditioning filter); thorough: + seeded random matrices n <= 20, p <= 6.
-(C) harness c18 + specs/Trace_Pca.tla : every embedding size 1..p, whitening off/on, three calling forms, probes,
-                          invalid requests; TLC validates each recorded event.
+                          both tiers: + seeded larger matrices p = 6..30 (ramp / badly scaled / offset columns, magnitude
+                          x1..x10, embedding sizes around p/5 and p/3; thorough: every k for p <= 12).
+(C) harness c18 + specs/Trace_Pca.tla : every embedding size 1..p (large cases: the listed ones), whitening off/on,
+                          three calling forms, probes, invalid requests; TLC validates each recorded event.
 """
 import vlib
 from fractions import Fraction
@@ -236,6 +238,8 @@ def run(ctx):
                        "magnitudes are limited by 32-bit TLC integers: sum of sigma^2 <= 140000, n <= 400, p <= 30, |x| <= 130 "
                        "(the generator lowers the entry amplitude / the steepness of the column ramp until a matrix fits)",
                        "for n > 20 the projection / round trip is logged for the first 3 training rows and the probes only",
+                       "large cases with unit u > 1: the implementation runs on u*x and is observed in units of u (PCA is "
+                       "homogeneous in the unit of length); the relation is evaluated on x",
                        "an explained-variance ratio is a fraction (<= 1)"]
     return vlib.finish(ctx)
 
